@@ -1,8 +1,11 @@
 """pyvc.solve -- discharge obligations with a solver portfolio (subprocess CLIs).
 
 Portfolio, in order (first definitive answer wins):
-  z3-ematch : z3 5.1 (z3-new) with smt.mbqi=false   (E-matching + given triggers)
-  z3-default: z3 5.1 default configuration
+  z3-ematch : z3 5.1 (z3-new) with smt.mbqi=false smt.auto_config=false
+              (E-matching on the given triggers only; answers in milliseconds)
+  z3-ematch2: z3 5.1 with smt.mbqi=false (auto-configured; proves a few obligations the
+              first configuration leaves `unknown`, and vice versa)
+  z3-default: z3 5.1 default configuration (with model-based quantifier instantiation)
   cvc5      : cvc5 1.0.3
   z3-old    : z3 4.8.12
 `unsat` of (background /\\ hyps /\\ not goal) == obligation discharged.
@@ -23,6 +26,7 @@ from pyvc import sym
 
 BACKENDS = [
     ('z3-ematch', ['z3-new', 'smt.mbqi=false', 'smt.auto_config=false'], 2),
+    ('z3-ematch2', ['z3-new', 'smt.mbqi=false'], 3),
     ('z3-default', ['z3-new'], 6),
     ('cvc5', ['/usr/bin/cvc5', '--lang=smt2'], 6),
 ]
@@ -140,12 +144,13 @@ def discharge_one(job):
   try:
     backends = BACKENDS + (THOROUGH_EXTRA if thorough else [])
     if len(job) > 5 and job[5]:
-      backends = [('z3-ematch', BACKENDS[0][1], 20), ('z3-default', ['z3-new'], 25),
-                  ('cvc5', BACKENDS[2][1], 15)]
+      backends = [('z3-ematch', BACKENDS[0][1], 20), ('z3-ematch2', BACKENDS[1][1], 20),
+                  ('z3-default', ['z3-new'], 25),
+                  ('cvc5', BACKENDS[3][1], 15)]
       thorough = False
     if canary:
       # must-NOT-be-provable checks: a short attempt is all that is needed
-      backends = [(n, c, 2) for n, c, _ in BACKENDS[:2]]
+      backends = [(n, c, 2) for n, c, _ in (BACKENDS[0], BACKENDS[2])]
     for name, cmd, tmo in backends:
       if thorough and not canary:
         tmo *= THOROUGH_FACTOR
